@@ -724,7 +724,7 @@ fn branchy_game(r: &mut Rng) -> Tree {
                 t: Tree::P {
                     pl: first,
                     info: format!("x{j}"),
-                    kids: (0..2)
+                    kids: (0..3)
                         .map(|a| PKid {
                             a: format!("a{a}"),
                             t: Tree::P {
@@ -767,7 +767,8 @@ pub fn gen_step2(args: &Args) {
             }
             meth = METHODS[1 + r.below(2) as usize];
             it = 2 + r.below(2);
-            let ab = [json!(["ninf"]), json!(["q", -1, 1]), json!(["q", 0, 1]), json!(["q", 1, 1]), json!(["pinf"])];
+            // (beta = -inf as well would leave nothing but zeros: every fall-back decision a tie, not judged)
+            let ab = [json!(["q", -1, 1]), json!(["q", 0, 1]), json!(["q", 1, 1]), json!(["pinf"])];
             let g = [json!(["q", 0, 1]), json!(["q", 1, 1]), json!(["q", 2, 1])];
             let w = [json!(["ninf"]), json!(["q", 0, 1]), json!(["pinf"])];
             par = json!({"a": ["ninf"], "b": gen_e(&mut r, &ab), "g": gen_e(&mut r, &g), "w": gen_e(&mut r, &w)});
